@@ -22,13 +22,19 @@ var c16Pools = map[string][]c16Val{
 	"int":  {{K: "int", I: 0}, {K: "int", I: 1}, {K: "int", I: 2}},
 	"str":  {{K: "str", S: "x"}, {K: "str", S: "y"}},
 	"bool": {{K: "bool", B: true}, {K: "bool", B: false}},
+	// optional parameters (c16NilArgs): nil, the zero value, another value
+	"oint":  {{K: "nil"}, {K: "int", I: 0}, {K: "int", I: 1}},
+	"ostr":  {{K: "nil"}, {K: "str", S: ""}, {K: "str", S: "x"}},
+	"obool": {{K: "nil"}, {K: "bool", B: false}, {K: "bool", B: true}},
 }
 
 type c16Gen struct {
 	r       *Rng
 	marks   int
 	locs    int
-	forceRT string // when set, fn() generates a function of this result type
+	forceRT string   // when set, fn() generates a function of this result type
+	forcePT []string // when set, fn() generates a function of these parameter types
+	optPct  int      // when > 0: that share of the parameters is optional (type "o"+t: may be nil; only tested, never used as a value)
 }
 
 type c16Sym struct{ N, T string }
@@ -63,7 +69,7 @@ func (g *c16Gen) expr(vars []c16Sym, t string) *c16Expr {
 	v, ok := g.pick(vars, t)
 	if !ok || r.Chance(25) {
 		if t == "bool" && r.Chance(50) {
-			return g.cond(vars, 1)
+			return c16BoolValue(g.cond(vars, 1), vars)
 		}
 		return g.lit(t)
 	}
@@ -93,10 +99,23 @@ func (g *c16Gen) expr(vars []c16Sym, t string) *c16Expr {
 		case 0:
 			return &c16Expr{T: "not", L: c16Var(v)}
 		case 1:
-			return g.cond(vars, 1)
+			return c16BoolValue(g.cond(vars, 1), vars)
 		}
 	}
 	return c16Var(v)
+}
+
+// c16BoolValue: a condition used as a VALUE of type bool: the bare mention of an optional variable (fine as a
+// condition: it is tested) is not a bool, its negation is.
+func c16BoolValue(e *c16Expr, vars []c16Sym) *c16Expr {
+	if e.T == "var" {
+		for _, v := range vars {
+			if v.N == e.N && strings.HasPrefix(v.T, "o") {
+				return &c16Expr{T: "not", L: e}
+			}
+		}
+	}
+	return e
 }
 
 func (g *c16Gen) cond(vars []c16Sym, depth int) *c16Expr {
@@ -112,6 +131,22 @@ func (g *c16Gen) cond(vars []c16Sym, depth int) *c16Expr {
 		if w, ok := g.pick(vars, v.T); ok && w != v.N {
 			return c16Bin(Pick(r, []string{"==", "!="}), c16Var(v.N), c16Var(w))
 		}
+	}
+	if strings.HasPrefix(v.T, "o") { // optional: compared with nil (either side), tested, compared with a value
+		switch w := r.Intn(100); {
+		case w < 25:
+			return c16Bin(Pick(r, []string{"==", "!="}), c16Var(v.N), c16Lit(c16Val{K: "nil"}))
+		case w < 40:
+			return c16Bin(Pick(r, []string{"==", "!="}), c16Lit(c16Val{K: "nil"}), c16Var(v.N))
+		case w < 60 && v.T != "oint":
+			if r.Bool() {
+				return &c16Expr{T: "not", L: c16Var(v.N)}
+			}
+			return c16Var(v.N)
+		case w < 70 && v.T == "ostr":
+			return c16Bin(Pick(r, []string{"==", "!="}), c16Var(v.N), c16Str(""))
+		}
+		return c16Bin(Pick(r, []string{"==", "!="}), c16Var(v.N), g.lit(v.T[1:]))
 	}
 	switch v.T {
 	case "int":
@@ -179,6 +214,9 @@ func (g *c16Gen) fn(name string, size int) *c16Fn {
 	if size == 0 {
 		n = r.Intn(3)
 	}
+	if g.forcePT != nil {
+		n = len(g.forcePT)
+	}
 	names := []string{"a", "b", "c", "d"}[:n]
 	if r.Chance(30) { // parameter list not in alphabetical order
 		for i := len(names) - 1; i > 0; i-- {
@@ -188,10 +226,16 @@ func (g *c16Gen) fn(name string, size int) *c16Fn {
 	}
 	base := Pick(r, []string{"int", "str", "bool"})
 	vars := []c16Sym{}
-	for _, p := range names {
+	for pi, p := range names {
 		t := base // several parameters of one type: permutations are type-correct
 		if r.Chance(35) {
 			t = Pick(r, []string{"int", "str", "bool"})
+		}
+		if g.forcePT != nil {
+			t = g.forcePT[pi]
+		}
+		if g.optPct > 0 && r.Chance(g.optPct) {
+			t = "o" + t
 		}
 		f.Params = append(f.Params, p)
 		f.PT = append(f.PT, t)
@@ -225,8 +269,9 @@ func (g *c16Gen) fn(name string, size int) *c16Fn {
 type c16Prog struct {
 	Extra   []*c16Fn // other definitions the program needs (mutual recursion)
 	F       *c16Fn
-	Mode    string   // direct | stored | passed | passed-colliding
-	ArgForm string   // lit | vars | perm | expr | nested (some arguments are, or contain, user function calls)
+	Mode    string   // direct | stored | passed | passed-colliding | wrapped (called from a function whose parameters are named like f's and hold the Caller values)
+	ArgForm string   // lit | vars | perm | expr | nested (some arguments are, or contain, user function calls) | mixed (c16NilArgs: literals, nil-valued expressions, caller variables)
+	Vis     string   // how the caller's variables named like the parameters are provided: "" = let | ctx (context values)
 	Caller  []c16Val // values of the caller's variables named like the parameters (not for lit)
 	Args    []*c16Expr
 	Site    string
@@ -238,11 +283,29 @@ type c16Prog struct {
 	Prev    []*c16Expr // when set: the same function is called with these arguments first and that value is emitted before
 }
 
+// c16IsNil: the expression is written as a nil value (nil, a missing map key, a helper that returns nil).
+func c16IsNil(e *c16Expr) bool {
+	return (e.T == "lit" || e.T == "raw") && e.V.K == "nil"
+}
+
 func c16Label(p *c16Prog) string {
 	if p.Blame != "" {
 		return p.Blame
 	}
+	for _, a := range p.Args {
+		if c16IsNil(a) {
+			return "nil-argument-binds-parameter"
+		}
+	}
+	if p.Rec == "nil-argument" {
+		return "nil-argument-binds-parameter"
+	}
 	a := p.ArgForm == "perm" || p.ArgForm == "expr" || p.Mode == "passed-colliding" || p.Rec == "accumulator"
+	if p.ArgForm == "mixed" {
+		for i, e := range p.Args { // a caller variable named like a parameter in another position
+			a = a || (e.T == "var" && e.N != p.F.Params[i])
+		}
+	}
 	v := p.Site != "out" || p.Rec == "value-consumed"
 	nest := p.ArgForm == "nested" || p.Rec == "through-argument"
 	switch {
@@ -266,7 +329,7 @@ func c16Label(p *c16Prog) string {
 		return "first-class-stored"
 	case p.Mode == "passed":
 		return "first-class-passed"
-	case p.ArgForm == "vars":
+	case p.ArgForm == "vars", p.ArgForm == "mixed":
 		return "args-same-names"
 	}
 	return "decision-chain"
@@ -295,11 +358,19 @@ func c16Build(p *c16Prog) (cs *c16Case, ok bool) {
 	}
 	def(p.F)
 	loopVar := ""
-	if p.ArgForm != "lit" {
+	var ctxVals map[string]string
+	if p.ArgForm != "lit" && p.Mode != "wrapped" {
 		for i, n := range p.F.Params {
 			top.vars[n] = p.Caller[i]
 			if p.Loop && i == 0 { // this caller variable is a loop variable: the call sits in the loop's body
 				loopVar = n
+				continue
+			}
+			if p.Vis == "ctx" { // a value of the context the template is rendered with
+				if ctxVals == nil {
+					ctxVals = map[string]string{}
+				}
+				ctxVals[n] = p.Caller[i].Src()
 				continue
 			}
 			tmpl += "<% let " + n + " = " + p.Caller[i].Src() + " %>"
@@ -335,13 +406,21 @@ func c16Build(p *c16Prog) (cs *c16Case, ok bool) {
 		if p.Prev != nil {
 			prev = c16Call("ap", append([]*c16Expr{c16Var(p.F.Name)}, p.Prev...)...)
 		}
+	case "wrapped": // w's parameters are the caller's variables: the arguments of f are evaluated in w's scope
+		w := &c16Fn{Name: "w", Params: p.F.Params, PT: p.F.PT, RT: p.F.RT, Body: []*c16Stmt{c16Ret(c16Call(p.F.Name, args...))}}
+		def(w)
+		vals := []*c16Expr{}
+		for _, v := range p.Caller {
+			vals = append(vals, c16Lit(v))
+		}
+		call = c16Call("w", vals...)
 	default:
 		call = c16Call(p.F.Name, args...)
 		if p.Prev != nil {
 			prev = c16Call(p.F.Name, p.Prev...)
 		}
 	}
-	cs = &c16Case{Shape: c16Label(p), Site: p.Site}
+	cs = &c16Case{Shape: c16Label(p), Site: p.Site, Ctx: ctxVals}
 	C := call.Src()
 	site := ""
 	if p.Few > 0 {
@@ -571,6 +650,27 @@ func c16RunProg(rep *Report, p *c16Prog) {
 			q.Prev = nil
 			adopt(q)
 		}
+		if p.ArgForm == "mixed" { // one simplification at a time, while it still fails
+			for _, simpler := range []func(q *c16Prog){
+				func(q *c16Prog) { q.Site = "out" },
+				func(q *c16Prog) { q.Mode = "direct" },
+				func(q *c16Prog) { q.Loop = false },
+				func(q *c16Prog) { q.Vis = "" },
+			} {
+				q := *p
+				simpler(&q)
+				adopt(q)
+			}
+			for i := range p.Args {
+				if p.Args[i].T == "lit" {
+					continue
+				}
+				q := *p
+				q.Args = append([]*c16Expr{}, p.Args...)
+				q.Args[i] = c16Lit((&c16Ref{}).eval(p.Args[i], c16TopEnv(p)))
+				adopt(q)
+			}
+		}
 		if p.ArgForm == "nested" {
 			for i := range p.Args {
 				if !c16HasCall(p.Args[i]) {
@@ -768,6 +868,9 @@ func c16Recursion(rep *Report) {
 func c16Generate(cfg Config, rep *Report, r *Rng) {
 	c16Recursion(rep)
 	c16Loops(cfg, rep, NewRng(cfg.Seed).Fork(1601))
+	c16NilRecursion(rep)
+	c16NilArgs(cfg, rep, NewRng(cfg.Seed).Fork(1603))
+	c16Histories(cfg, rep, NewRng(cfg.Seed).Fork(1604))
 	gn := &c16Gen{r: NewRng(cfg.Seed).Fork(1602)} // its own stream: the cases below this line are the same as before
 	g := &c16Gen{r: r}
 	nf := cfg.N(2500, 30000)
